@@ -33,6 +33,14 @@ class Classes:
     def __init__(self, source):
         self.src = source
         self._ids = {}
+        # the class table does not change during a run (models are registered when the contract
+        # files are imported, before the first function is generated): memoise the lookups
+        self._memo = {}
+
+    def _cached(self, key, fn):
+        if key not in self._memo:
+            self._memo[key] = fn()
+        return self._memo[key]
 
     # -- names ---------------------------------------------------------
     def canon(self, name):
@@ -85,6 +93,9 @@ class Classes:
         return []
 
     def mro(self, q):
+        return list(self._cached(('mro', q), lambda: self._mro(q)))
+
+    def _mro(self, q):
         q = self.canon(q)
         if self.is_real(q) and not any(api.MODELS.get(c) is not None and api.MODELS[c].bases
                                        for c in self.src.mro(q) if not c.startswith(('builtin:', 'ext:'))):
@@ -111,6 +122,9 @@ class Classes:
         return out
 
     def is_subclass(self, sub, sup):
+        return self._cached(('issub', sub, sup), lambda: self._is_subclass(sub, sup))
+
+    def _is_subclass(self, sub, sup):
         sub = self.canon(sub)
         sup = self.canon(sup)
         if sub == sup or sup == 'builtin:object':
@@ -124,6 +138,9 @@ class Classes:
         return self._ids[q]
 
     def all_known(self):
+        return set(self._cached(('known', len(api.MODELS)), self._all_known))
+
+    def _all_known(self):
         names = set(api.MODELS)
         for modname in ('__init__', 'cfgparser', 'cmdline', 'datatypes', 'info', 'loader',
                         'matcher', 'schema', 'schemaless', 'substitution', 'url', 'validator',
@@ -139,12 +156,19 @@ class Classes:
         return names
 
     def subclasses(self, q):
+        return list(self._cached(('sub', q), lambda: self._subclasses(q)))
+
+    def _subclasses(self, q):
         q = self.canon(q)
         return sorted(c for c in self.all_known() | {q} if self.is_subclass(c, q))
 
     # -- fields --------------------------------------------------------
     def field(self, cls, name):
         """(declaring class, Type) of a field, searching models along the MRO."""
+        return self._cached(('field', cls, name, len(api.MODELS.get(cls).fields) if cls in api.MODELS else 0),
+                            lambda: self._field(cls, name))
+
+    def _field(self, cls, name):
         for c in self.mro(cls):
             m = api.MODELS.get(c)
             if m is not None and name in m.fields:
